@@ -33,6 +33,20 @@ func h11Helper2(c *Config, name string, standalone bool) (string, string) {
 	return f()
 }
 
+// a test function in a second test file of the package: natively the closure is
+// provided by other_test.go of the harness directory, symbolically the frame is tagged
+var viaOtherTestFile func(func())
+var otherTestFileBase = "other_test"
+
+func h11ViaOther(f func()) {
+	if vxrt.Symbolic() {
+		vxrt.FrameFile("/pkg/other_test.go")
+		f()
+		return
+	}
+	viaOtherTestFile(f)
+}
+
 func symSuffix(label string, n int) string {
 	s := vxrt.Text(label, vxrt.Len(label+"-len", 0, n))
 	for i := 0; i < len(s); i++ {
@@ -111,15 +125,33 @@ func H_C11_location() {
 		vxrt.Assert(cfgEqual(cc, ccBefore) && cfgEqual(*c, ccBefore) || api == 2 && cfgEqual(cc, ccBefore), "C12:config-unchanged-by-path-resolution")
 	}()
 	helpers := vxrt.Choice("helper-frames", 4)
-	var got string
-	switch helpers {
-	case 0:
-		got, _ = h11Exported(&cc, name, standalone)
-	case 3:
-		// many frames of a helper in a non-test file of another directory
-		vxrt.Deep(vxrt.Param("deep", 40), func() { got, _ = h11Exported(&cc, name, standalone) })
-	default:
-		got, _ = h11Helper1(&cc, name, standalone, helpers)
+	compute := func() string {
+		var got string
+		switch helpers {
+		case 0:
+			got, _ = h11Exported(&cc, name, standalone)
+		case 3:
+			// many frames of a helper in a non-test file of another directory
+			vxrt.Deep(vxrt.Param("deep", 40), func() { got, _ = h11Exported(&cc, name, standalone) })
+		default:
+			got, _ = h11Helper1(&cc, name, standalone, helpers)
+		}
+		return got
+	}
+	got := compute()
+	if !standalone && helpers != 3 && vxrt.Bool("then-from-a-second-test-file") {
+		// the same call sites reached afterwards from a test function in another test file
+		// of the package: the location follows that file
+		defer func() {
+			var got2 string
+			h11ViaOther(func() { got2 = compute() })
+			base := fileOpt
+			if base == "" {
+				base = otherTestFileBase
+			}
+			want := expectedDir(testDir, dirOpt, trim) + "/" + base + ".snap" + extOpt
+			vxrt.Assert(vxrt.Eq(got2, filepath.Clean(want)), "C11:location-follows-the-calling-test-file")
+		}()
 	}
 	if standalone {
 		k := vxrt.Len("kth-call", 1, 2)
